@@ -13,7 +13,7 @@ func ProcessInput(jsonldText string, debug bool, receiver *chan e.Event) (any, e
 
 	var input any
 	if err := decoder.Decode(&input); err != nil {
-		return "", nil
+		return nil, err
 	}
 	dispatchEvent(e.NewEvent(e.InputDataParsingDone), receiver)
 
